@@ -148,12 +148,9 @@ Definition delegate (c : cfg) (who : Z) (amts : coins) (s : st) : outcome st :=
   do _ <- check_tok c amts;
   let pc := pool_coins (slashed s) amts in
   if existsb (fun c => snd c <? 0) pc then Panic "negative coin amount" else
-  let s := set_nbal s (asubs (nbal s) who amts) in
-  let s := set_modb s (cadds (modb s) amts) in
-  let s := set_pool s (slashed s) (cadds (stake s) amts) (cadds (shares s) pc) in
-  let s := set_ssup s (cadds (ssup s) pc) in
-  let s := set_sbal s (aadds (sbal s) who pc) in
-  Ok (set_dels s (zinsert who (dels s))).
+  Ok (mkSt (time s) (height s) (slashed s) (cadds (stake s) amts) (cadds (shares s) pc) (cadds (ssup s) pc)
+           (cadds (modb s) amts) (fee s) (treas s) (asubs (nbal s) who amts) (aadds (sbal s) who pc) (rew s)
+           (undels s) (last s) (zinsert who (dels s)) (comp s) (votes s) (prev s)).
 
 (* keeper.Undelegate.  The delegator is always dropped from the pool's delegator list: the code
    looks for the prefix "v<id>_" in the balance string while share denoms are "v<id>/..." *)
@@ -163,16 +160,20 @@ Definition undelegate (c : cfg) (who : Z) (amts : coins) (s : st) : outcome st :
   if negb (all_gte (sbal s who) pc) then Err "insufficient shares" else
   if negb (all_gte (stake s) amts) then Err "insufficient total staking tokens" else
   if negb (all_gte (shares s) pc) then Panic "negative coin amount" else
-  let s := set_sbal s (asubs (sbal s) who pc) in
-  let s := set_ssup s (csubs (ssup s) pc) in
-  let s := set_pool s (slashed s) (csubs (stake s) amts) (csubs (shares s) pc) in
-  let id := last s + 1 in
-  let s := set_undels s (undels s ++ [mkUndel id who (time s + c_unstake c) amts]) id in
-  Ok (set_dels s (zremove who (dels s))).
+  Ok (mkSt (time s) (height s) (slashed s) (csubs (stake s) amts) (csubs (shares s) pc) (csubs (ssup s) pc)
+           (modb s) (fee s) (treas s) (nbal s) (asubs (sbal s) who pc) (rew s)
+           (undels s ++ [mkUndel (last s + 1) who (time s + c_unstake c) amts]) (last s + 1)
+           (zremove who (dels s)) (comp s) (votes s) (prev s)).
 
 Fixpoint find_undel (id : Z) (l : list undel) : option undel :=
   match l with [] => None | u :: r => if u_id u =? id then Some u else find_undel id r end.
 Definition remove_undel (id : Z) (l : list undel) : list undel := filter (fun u => negb (u_id u =? id)) l.
+
+(* SendCoinsFromModuleToAccount(undelegation.Amount) + RemoveUndelegation *)
+Definition pay_undel (s : st) (who : Z) (u : undel) : st :=
+  mkSt (time s) (height s) (slashed s) (stake s) (shares s) (ssup s) (csubs (modb s) (u_amt u)) (fee s) (treas s)
+       (aadds (nbal s) who (u_amt u)) (sbal s) (rew s) (remove_undel (u_id u) (undels s)) (last s)
+       (dels s) (comp s) (votes s) (prev s).
 
 (* msgServer.ClaimUndelegation *)
 Definition claim (v : variant) (who id : Z) (s : st) : outcome st :=
@@ -182,9 +183,7 @@ Definition claim (v : variant) (who id : Z) (s : st) : outcome st :=
       if time s <? u_expiry u then Err "not enough time passed" else
       if v_owner_check v && negb (u_owner u =? who) then Err "not the undelegation owner" else
       if negb (all_gte (modb s) (u_amt u)) then Err "insufficient funds" else
-      let s := set_modb s (csubs (modb s) (u_amt u)) in
-      let s := set_nbal s (aadds (nbal s) who (u_amt u)) in
-      Ok (set_undels s (remove_undel id (undels s)) (last s))
+      Ok (pay_undel s who u)
   end.
 
 (* msgServer.ClaimMaturedUndelegations: iterates the records as they were at the start *)
@@ -194,9 +193,7 @@ Fixpoint claim_matured_loop (who : Z) (l : list undel) (s : st) : outcome st :=
   | u :: r =>
       if negb (u_owner u =? who) || (time s <? u_expiry u) then claim_matured_loop who r s else
       if negb (all_gte (modb s) (u_amt u)) then Err "insufficient funds" else
-      let s := set_modb s (csubs (modb s) (u_amt u)) in
-      let s := set_nbal s (aadds (nbal s) who (u_amt u)) in
-      claim_matured_loop who r (set_undels s (remove_undel (u_id u) (undels s)) (last s))
+      claim_matured_loop who r (pay_undel s who u)
   end.
 Definition claim_matured (who : Z) (s : st) : outcome st := claim_matured_loop who (undels s) s.
 
@@ -209,10 +206,8 @@ Definition slash (c : cfg) (sl : Z) (s : st) : outcome st :=
   if modb s 0 <? lost 0 then Panic "insufficient funds to burn" else
   let tsend : cmap := fun d => if d =? 0 then 0 else lost d in
   if existsb (fun d => modb s d <? tsend d) (c_dens c) then Panic "insufficient funds" else
-  let s := set_pool s sl newstake (shares s) in
-  let s := set_modb s (cminus (modb s) lost) in
-  let s := set_fee s (cplus (fee s) tsend) in
-  Ok (set_treas s (cplus (treas s) tsend)).
+  Ok (mkSt (time s) (height s) sl newstake (shares s) (ssup s) (cminus (modb s) lost) (cplus (fee s) tsend)
+           (cplus (treas s) tsend) (nbal s) (sbal s) (rew s) (undels s) (last s) (dels s) (comp s) (votes s) (prev s)).
 
 (* bank send of share tokens between accounts *)
 Definition send_shares (from to : Z) (amts : coins) (s : st) : outcome st :=
@@ -224,9 +219,9 @@ Definition send_shares (from to : Z) (amts : coins) (s : st) : outcome st :=
 Definition claim_rewards (c : cfg) (who : Z) (s : st) : outcome st :=
   let r := rew s who in
   if existsb (fun d => fee s d <? r d) (c_dens c) then Panic "insufficient funds" else
-  let s := set_fee s (cminus (fee s) r) in
-  let s := set_nbal s (aset (nbal s) who (cplus (nbal s who) r)) in
-  Ok (set_rew s (aset (rew s) who czero)).
+  Ok (mkSt (time s) (height s) (slashed s) (stake s) (shares s) (ssup s) (modb s) (cminus (fee s) r) (treas s)
+           (aset (nbal s) who (cplus (nbal s who) r)) (sbal s) (aset (rew s) who czero)
+           (undels s) (last s) (dels s) (comp s) (votes s) (prev s)).
 
 (* msgServer.RegisterDelegator (below MaxDelegators) *)
 Fixpoint register_scan (c : cfg) (s : st) (who : Z) (ds : list Z) : outcome bool :=
@@ -293,8 +288,8 @@ Definition autocompound_one (c : cfg) (a : Z) (s : st) : outcome st :=
   | [] => Ok s
   | _ =>
       if negb (all_gte (fee s) auto) then Panic "insufficient funds" else
-      let s := set_fee s (csubs (fee s) auto) in
-      let s := set_nbal s (aadds (nbal s) a auto) in
+      let s := mkSt (time s) (height s) (slashed s) (stake s) (shares s) (ssup s) (modb s) (csubs (fee s) auto) (treas s)
+                    (aadds (nbal s) a auto) (sbal s) (rew s) (undels s) (last s) (dels s) (comp s) (votes s) (prev s) in
       match delegate c a auto s with
       | Ok s => Ok (set_comp s (fun b => if b =? a then (all, cds, height s) else comp s b))
       | Err e => Panic e
@@ -331,8 +326,9 @@ Definition infl_commission (c : cfg) (infl power : Z) : Z := dec_mul_round (infl
 Definition pay_validator (c : cfg) (v : Z) (vr : cmap) (s : st) : outcome st :=
   if cmap_is_zero (c_dens c) vr then Ok s else
   if existsb (fun d => fee s d <? vr d) (c_dens c) then Panic "insufficient funds" else
-  let s := set_fee s (cminus (fee s) vr) in
-  Ok (set_nbal s (aset (nbal s) (val_acct v) (cplus (nbal s (val_acct v)) vr))).
+  Ok (mkSt (time s) (height s) (slashed s) (stake s) (shares s) (ssup s) (modb s) (cminus (fee s) vr) (treas s)
+           (aset (nbal s) (val_acct v) (cplus (nbal s (val_acct v)) vr)) (sbal s) (rew s)
+           (undels s) (last s) (dels s) (comp s) (votes s) (prev s)).
 
 (* AllocateTokens (InflationPossible = true; the minted inflation [infl] is an input) *)
 Definition allocate (c : cfg) (infl : Z) (s : st) : outcome st :=
@@ -376,7 +372,8 @@ Inductive op : Type :=
 | OUndelegate (who : Z) (amts : coins)
 | OClaim (who id : Z)
 | OClaimMatured (who : Z)
-| OSlash (sl : Z)
+| OSlash (sl : Z)                                        (* multistaking keeper SlashStakingPool *)
+| OSlashProposal (sl : Z)                                (* x/slashing proposal handler -> slashing keeper *)
 | OSendShares (from to : Z) (amts : coins)
 | OClaimRewards (who : Z)
 | ORegister (who : Z)
@@ -384,7 +381,7 @@ Inductive op : Type :=
 | OFees (amts : coins)                                  (* fees of the block arrive in the fee collector *)
 | OAdvance (dt : Z)                                     (* block time passes *)
 | OSetVotes (vs : list (Z * Z))                         (* keeper-level SetValidatorVote (allocation tests) *)
-| OAllocate (infl : Z)                                  (* keeper-level AllocateTokens *)
+| OAllocate (possible : bool) (infl : Z)                                  (* keeper-level AllocateTokens *)
 | OBegin (dt : Z) (commit : list Z) (proposer : Z) (possible : bool) (infl : Z)
 | OEnd.
 
@@ -395,6 +392,7 @@ Definition step (v : variant) (c : cfg) (o : op) (s : st) : outcome st :=
   | OClaim who id => claim v who id s
   | OClaimMatured who => claim_matured who s
   | OSlash sl => slash c sl s
+  | OSlashProposal sl => match slash c sl s with Ok _ => Panic "nil distributor keeper" | r => r end
   | OSendShares a b amts => send_shares a b amts s
   | OClaimRewards who => claim_rewards c who s
   | ORegister who => register c who s
@@ -402,7 +400,7 @@ Definition step (v : variant) (c : cfg) (o : op) (s : st) : outcome st :=
   | OFees amts => Ok (set_fee s (cadds (fee s) amts))
   | OAdvance dt => Ok (set_clock s (time s + dt) (height s))
   | OSetVotes vs => Ok (set_votes s vs (prev s))
-  | OAllocate infl => allocate c infl s
+  | OAllocate possible infl => if possible then allocate c infl s else Ok s
   | OBegin dt commit p possible infl => begin_block c dt commit p possible infl s
   | OEnd => end_block v c s
   end.
